@@ -908,6 +908,9 @@ static int stack_compact_range(struct reftable_stack *st, int first, int last,
 	int i = 0;
 	int j = 0;
 	int is_empty_table = 0;
+	char **cur_names = NULL;
+	int cur_names_len = 0;
+	int cur_start = -1;
 
 	if (first > last || (!expiry && first == last)) {
 		err = 0;
@@ -999,6 +1002,31 @@ static int stack_compact_range(struct reftable_stack *st, int first, int last,
 	}
 	have_lock = 1;
 
+	/* The list may have changed while the lock was released: tables added
+	   on top, other ranges compacted. Our tables are locked, so they must
+	   still be listed next to each other. */
+	err = read_lines(st->list_file, &cur_names);
+	if (err < 0)
+		goto done;
+	cur_names_len = names_length(cur_names);
+	for (i = 0; i + compact_count <= cur_names_len; i++) {
+		if (!strcmp(cur_names[i], st->readers[first]->name)) {
+			cur_start = i;
+			break;
+		}
+	}
+	for (i = first; cur_start >= 0 && i <= last; i++) {
+		if (strcmp(cur_names[cur_start + i - first],
+			   st->readers[i]->name))
+			cur_start = -1;
+	}
+	if (cur_start < 0) {
+		if (!is_empty_table)
+			unlink(temp_tab_file_name.buf);
+		err = 1;
+		goto done;
+	}
+
 	format_name(&new_table_name, st->readers[first]->min_update_index,
 		    st->readers[last]->max_update_index);
 	strbuf_addstr(&new_table_name, ".ref");
@@ -1014,16 +1042,16 @@ static int stack_compact_range(struct reftable_stack *st, int first, int last,
 		}
 	}
 
-	for (i = 0; i < first; i++) {
-		strbuf_addstr(&ref_list_contents, st->readers[i]->name);
+	for (i = 0; i < cur_start; i++) {
+		strbuf_addstr(&ref_list_contents, cur_names[i]);
 		strbuf_addstr(&ref_list_contents, "\n");
 	}
 	if (!is_empty_table) {
 		strbuf_addbuf(&ref_list_contents, &new_table_name);
 		strbuf_addstr(&ref_list_contents, "\n");
 	}
-	for (i = last + 1; i < st->merged->stack_len; i++) {
-		strbuf_addstr(&ref_list_contents, st->readers[i]->name);
+	for (i = cur_start + compact_count; i < cur_names_len; i++) {
+		strbuf_addstr(&ref_list_contents, cur_names[i]);
 		strbuf_addstr(&ref_list_contents, "\n");
 	}
 
@@ -1064,6 +1092,7 @@ static int stack_compact_range(struct reftable_stack *st, int first, int last,
 
 done:
 	free_names(delete_on_success);
+	free_names(cur_names);
 
 	listp = subtable_locks;
 	while (*listp) {
